@@ -117,3 +117,50 @@ def expected_full_qpoints(mesh, shift, gamma):
 
 def mats_line(rots):
     return "%d %s" % (len(rots), " ".join(str(int(v)) for v in np.asarray(rots).ravel()))
+
+
+def bz_setup(reclat):
+    """The integer change of basis of BrillouinZone (`_tmat`, public ingredients only) and its certificate."""
+    from phonopy.structure.cells import get_reduced_bases
+
+    red = get_reduced_bases(reclat.T)
+    tmat = np.linalg.inv(reclat) @ red.T
+    T = np.rint(tmat).astype(int)
+    ok = bool(np.abs(tmat - T).max() < 1e-8 and abs(int(round(np.linalg.det(T)))) == 1)
+    return T, ok
+
+
+def bz_line(reclat, T, qs):
+    from ..common import q
+
+    qs = np.asarray(qs, dtype=float)
+    return "bz %s %s 1/100 %d %s" % (" ".join(q(float(x)) for x in np.asarray(reclat).ravel()), " ".join(str(int(x)) for x in T.ravel()),
+                                     len(qs), " ".join(q(float(x)) for x in qs.ravel()))
+
+
+def bz_parse(line):
+    out = []
+    for part in line.split(" ; "):
+        t = part.split()
+        if len(t) != 9:
+            out.append(None)
+            continue
+        out.append(dict(point=np.array([float(Fraction(x)) for x in t[:3]]), dmin=float(Fraction(t[6])), tol=float(Fraction(t[7])), nshort=int(t[8])))
+    return out
+
+
+def bz_compare(reclat, q0, impl_set, m):
+    """'' if the implementation's shortest set starts with the model's point (same size), 'tie' if it differs only by
+    how an exact tie of np.rint / of the tolerance threshold was broken, else a description of the disagreement."""
+    if m is None:
+        return "model error"
+    p = np.asarray(impl_set[0], dtype=float)
+    if np.abs(p - m["point"]).max() <= 1e-12 and len(impl_set) == m["nshort"]:
+        return ""
+    d = p - np.asarray(q0, dtype=float)
+    if np.abs(d - np.rint(d)).max() > 1e-9:
+        return "relocated point is not a lattice translate of the q-point"
+    dist = float(((reclat @ p) ** 2).sum())
+    if dist < m["dmin"] + m["tol"] * (1 + 1e-9) + 1e-12:
+        return "tie"
+    return "relocated point %s has squared length %.12g, window minimum %.12g + tolerance %.3g (model point %s)" % (p.tolist(), dist, m["dmin"], m["tol"], m["point"].tolist())
